@@ -135,6 +135,13 @@ CHECKS = {
             "longer packets and operation sequences are recorded from the real reader and validated by TLC against Trace_Buffer.tla, and the VarInt "
             "round trip is swept natively over 2^32 values (thorough) with the spec's encoder as oracle.",
             "Trusted: TLC, CommunityModules Json/IOUtils, the harness's primitive comparisons and the cfg-gated re-export of the crate-private reader."),
+    "C19": ("exploration",
+            "Cli.tla (parse -> find -> resolve -> query -> print -> exit; ExitRule, NeverPrintsOnError, termination) model-checked with TLC; its "
+            "case matrix is replayed on the real gamedig_cli binary against loopback reference servers",
+            "17 game families x 2 output modes x 6 formats x 5 string classes (plain, markup, control, non-ASCII, empty) and 8 kinds of invalid "
+            "invocation: exit status, stderr, and the printed document parsed by independent readers (serde_json, bson + hex/base64, a strict "
+            "XML 1.1 well-formedness checker) and compared with the library's response for the same replies.",
+            "Well-formedness is decided by the harness's parsers; the debug format is only checked for exit status and a non-empty document."),
     "C20": ("exploration",
             "IdRules.tla enumerates every name shape of the documented grammar (TLC); the real checker is driven per shape and its verdict "
             "histories are trace-validated by TLC against Trace_IdRules.tla (accepted <=> the id is one the checker itself reports)",
